@@ -16,6 +16,8 @@ pub(crate) struct AsyncLruCacheEntryInner<V> {
     value: V,
     lru: AtomicUsize,
     dirty: AtomicBool,
+    // the value is populated, so this entry may become visible in rmap
+    ready: AtomicBool,
 }
 
 pub(crate) type AsyncLruCacheEntry<V> = Arc<AsyncLruCacheEntryInner<V>>;
@@ -86,7 +88,9 @@ impl<K: Clone + PartialEq + Eq + Hash + std::fmt::Debug + std::cmp::PartialOrd, 
         let mut r = self.rmap.write().unwrap();
         let mut vec = Vec::new();
 
-        let wlen = w.len();
+        // entries which are still being loaded stay pending: their loader
+        // commits them, or drops them if loading fails
+        let wlen = w.values().filter(|v| v.is_ready()).count();
 
         while r.len() + wlen > self.limit {
             let res = self.__pop_lru(&mut r);
@@ -109,8 +113,15 @@ impl<K: Clone + PartialEq + Eq + Hash + std::fmt::Debug + std::cmp::PartialOrd, 
             }
         }
 
-        for (key, value) in w.drain() {
-            r.insert(key, value);
+        let ready: Vec<K> = w
+            .iter()
+            .filter(|(_, v)| v.is_ready())
+            .map(|(k, _)| k.clone())
+            .collect();
+        for key in ready {
+            if let Some(value) = w.remove(&key) {
+                r.insert(key, value);
+            }
         }
 
         if vec.is_empty() {
@@ -290,7 +301,19 @@ impl<V> AsyncLruCacheEntryInner<V> {
             value: val,
             lru: AtomicUsize::new(0),
             dirty: AtomicBool::new(false),
+            ready: AtomicBool::new(false),
         }
+    }
+
+    /// The loader calls this once the value is populated; a pending entry
+    /// isn't committed to rmap before that, whoever calls commit_wmap()
+    pub(crate) fn set_ready(&self) {
+        self.ready.store(true, Ordering::Relaxed)
+    }
+
+    #[inline(always)]
+    fn is_ready(&self) -> bool {
+        self.ready.load(Ordering::Relaxed)
     }
 
     #[inline(always)]
